@@ -680,6 +680,10 @@ class Poly:
 def atom_str(a):
     if isinstance(a, tuple) and len(a) == 2 and a[0] == "sym":
         return str(a[1])
+    if isinstance(a, tuple) and len(a) == 2 and a[0] == "lv":
+        return "k%d" % a[1]          # a symbolised loop variable (jbv/loops.py)
+    if isinstance(a, tuple) and len(a) == 1 and isinstance(a[0], str):
+        return a[0]
     if isinstance(a, tuple) and a and a[0] in ("arg", "var", "upvar", "field", "idx", "call", "len",
                                                "cast", "c", "bin", "un", "variant"):
         return show(a)
